@@ -109,6 +109,10 @@ def check_point(ctx, kind, c, pdesc, boundary, tier):
             continue
         want = c.add_months(rep, f0, n)
         judge(op, q, want)
+        q_std = run(["months_standardize", n], lambda: p + impl.Duration(months=n, standardize=True))
+        if q_std is not None and impl.canon_point(q_std) != impl.canon_point(q):
+            ctx.violation("date", {"op": "months_standardize", "rep": rep},
+                          {"kind": "pt", "mode": kind, "p": pdesc, "op": ["months_standardize", n]}, impl.sstr(q), impl.sstr(q_std))
         q2 = run(["add_months", n], lambda: p.add_months(n))
         if q2 is not None and impl.canon_point(q2) != impl.canon_point(q):
             ctx.violation("add_months_same_as_plus", {"op": "add_months", "rep": rep},
